@@ -254,6 +254,12 @@ pub fn cmd_hist(a: &[&str]) -> String {
             }
             // the limit is a public field: it may be reassigned between parses (seed C02-9)
             "N" => { md.max_nesting = rest.parse().unwrap(); }
+            // the link validator is a public field: V0 installs one that accepts everything, V1 the stock one again
+            // (seed C04-12: a copy taken when the link plugin is registered); not part of the model, oracle only
+            "V" => {
+                fn anything(_: &str) -> bool { true }
+                if rest == "0" { md.validate_link = anything; } else { md.validate_link = MarkdownIt::new().validate_link; }
+            }
             "D" => {
                 let r = crate::guarded(|| { let s = format!("{:?}", md); format!("ok {}", s.len() > 0) });
                 out.push(format!("D[{}]", r.split(' ').take(2).collect::<Vec<_>>().join(" ")));
